@@ -93,6 +93,7 @@ PROPS["C07"] = {  # gen: Gen/Kernels.v (vkernel.py)
         {"name": "C07_poly1305", "status": "proved", "statement": "forall 32-byte key, message: crypto_onetimeauth (model of poly1305_soft.rs: key clamping into 44/44/42-bit limbs, block loading, multiplication / carry, buffering, finalize with two carry rounds, conditional subtraction of p, pad addition, packing) = RFC 8439 Poly1305"},
         {"name": "C07_poly1305_block", "status": "proved", "statement": "one block step: limb value = ((acc + n) * r) mod p, limbs stay carried, every u128 sum < 2^92 (no overflow of any checked operation; every `as u64` exact)"},
         {"name": "C07_poly1305_block_is_code", "status": "proved", "statement": "the Rust block body with its masks, shifts, `as u64` and wrapping_add = that arithmetic step on the loaded limbs"},
+        {"name": "C07_blake2b_compress_from_source", "status": "proved", "statement": "the closures of blake2b_soft.rs::compress TRANSLATED this run (g statements, rotation amounts, message-word selection, the 8 g calls per round, the 12 round calls; prologue / epilogue matched as templates) = the model's compress, which C07_blake2b_compress proves = RFC 7693 F"},
         {"name": "C07_poly1305_from_source", "status": "proved", "statement": "the arithmetic of poly1305_soft.rs TRANSLATED this run (block loop body of blocks, the carry / conditional subtraction / pad / pack section of finalize, the clamping in new, the high bit) = the model proved equal to RFC 8439, statement for statement"},
         {"name": "C07_hsalsa20", "status": "proved", "statement": "forall key, input: crypto_core_hsalsa20 as TRANSLATED from crypto_core.rs this run (32 xor-rotate-add statements per pass, 10 passes, word layout, output words) = HSalsa20 of the Salsa20 specification"},
         {"name": "C07_hchacha20", "status": "proved", "statement": "forall 32-byte key, 16-byte input: crypto_core_hchacha20 as translated (8 quarter-round calls per pass, chacha20_quarterround / chacha20_round bodies, 10 passes, layout, outputs) = HChaCha20"},
